@@ -33,7 +33,9 @@ pub enum Mode {
 pub enum Shape {
     Files { mode: Mode, paths: Vec<String> },
     Stdin { check: bool },
-    FormatAll { check: bool, dir: Option<String> },
+    /// `inplace`: `-i` given before the subcommand (accepted by clap; must not change anything:
+    /// format-all writes anyway, and with --check it must stay read-only)
+    FormatAll { check: bool, dir: Option<String>, #[serde(default)] inplace: bool },
 }
 
 #[derive(Serialize, Deserialize, Clone, Debug, PartialEq, Eq, Default)]
@@ -121,6 +123,10 @@ pub struct Inv {
     pub plan: Vec<Rule>,
     pub shim_seed: u64,
     pub readdir: String,
+    /// environment of the process (besides the interposer's own variables): the result must not
+    /// depend on it
+    #[serde(default)]
+    pub env: Vec<(String, String)>,
 }
 
 impl Inv {
@@ -176,7 +182,10 @@ impl Inv {
                     check_flag(&mut pre, &mut post);
                 }
             }
-            Shape::FormatAll { check, dir } => {
+            Shape::FormatAll { check, dir, inplace } => {
+                if *inplace {
+                    pre.push(if self.style.spelling & 16 != 0 { "--inplace".into() } else { "-i".into() });
+                }
                 if *check {
                     check_flag(&mut pre, &mut post);
                 }
